@@ -104,6 +104,8 @@ type Proxy struct {
 	burstOn   bool
 	burstLeft int
 
+	forced []forced // scripted faults, consumed in order by matching calls
+
 	calls  []Call
 	faults map[string]int // "op:kind" -> injected count
 	nCalls map[string]int // op -> calls
@@ -126,6 +128,20 @@ var (
 // NewProxy wraps fc. Faults are disabled until Enable is called.
 func NewProxy(fc *file.ReplicaClient, sched Schedule, seed int64) *Proxy {
 	return &Proxy{fc: fc, sched: sched, rng: rand.New(rand.NewSource(seed)), faults: map[string]int{}, nCalls: map[string]int{}}
+}
+
+type forced struct {
+	op, kind string
+	level    int
+	off      int64
+}
+
+// Force scripts a fault: the next call of op on the given level gets kind at
+// byte offset off, whatever the schedule says (also while faults are disabled).
+func (p *Proxy) Force(op string, level int, kind string, off int64) {
+	p.mu.Lock()
+	defer p.mu.Unlock()
+	p.forced = append(p.forced, forced{op: op, kind: kind, level: level, off: off})
 }
 
 // Rebind points the proxy at another file client (a new litestream.DB object
@@ -154,6 +170,13 @@ func (p *Proxy) BeginStep(step int, seed int64) {
 	p.rng = rand.New(rand.NewSource(seed))
 	p.burstOn = p.rng.Intn(2) == 0
 	p.burstLeft = 2 + p.rng.Intn(6)
+}
+
+// NumCalls returns the number of client calls made so far.
+func (p *Proxy) NumCalls() int {
+	p.mu.Lock()
+	defer p.mu.Unlock()
+	return len(p.calls)
 }
 
 // Calls returns a copy of the call log.
@@ -191,7 +214,11 @@ func (p *Proxy) pick(op string, level int, min, max ltx.TXID, kinds ...string) (
 	defer p.mu.Unlock()
 	c := Call{Seq: len(p.calls) + 1, Step: p.step, Op: op, Level: level, Min: uint64(min), Max: uint64(max), Kind: KindOK}
 	p.nCalls[op]++
-	if p.on && (p.sched.Target == "" || p.sched.Target == op) {
+	if len(p.forced) > 0 && p.forced[0].op == op && p.forced[0].level == level {
+		c.Kind, c.Off = p.forced[0].kind, p.forced[0].off
+		p.forced = p.forced[1:]
+		p.faults[op+":"+c.Kind]++
+	} else if p.on && (p.sched.Target == "" || p.sched.Target == op) {
 		hit := false
 		if p.sched.Burst {
 			if p.burstLeft <= 0 {
